@@ -40,6 +40,8 @@ func init() {
 			out = append(out, Instance{Scenario: "pipe", Params: mustJSON(PipeParams{Mode: "script", Layout: "backtoback", Depth: d - 1, Ops: ops, Backend: "file", CrashEnd: true}), Bound: 0, Shards: 4})
 			out = append(out, Instance{Scenario: "pipe", Params: mustJSON(PipeParams{Mode: "script", Layout: "multi", Depth: d, Ops: []string{"deliver0", "deliver1", "ackold", "acknew", "commit"}, Latest: true, CrashEnd: true}), Bound: 0, Shards: 4, Note: "autoReset=latest: a vBucket without a document in a group that has checkpoints restarts from the beginning, not from the current end"})
 			out = append(out, Instance{Scenario: "pipe", Params: mustJSON(PipeParams{Mode: "script", Layout: "multi", Depth: d, Ops: []string{"deliver0", "deliver1", "ackold", "ctxcommit", "commit"}, CrashEnd: true}), Bound: 0, Shards: 4, Note: "Commit() called through the context of an event that is not acknowledged"})
+			out = append(out, Instance{Scenario: "pipe", Params: mustJSON(PipeParams{Mode: "gen", Alphabet: []string{"M", "Mshort", "Mpart", "Mres", "Mempty"}, Depth: 4, Ops: []string{"deliver0", "deliver1", "ackold", "commit"}, CrashEnd: true}), Bound: 0, Shards: 4, Note: "user keys that look almost like reserved ones (proper prefixes, partial prefixes, empty) are user events: the position passes them only when they are acknowledged"})
+			out = append(out, Instance{Scenario: "c08_rollback", Params: mustJSON(RollbackParams{}), Bound: 0, Shards: 8, Note: "a restart answered with a rollback: every event above the checkpointed position is delivered (the first unsettled one is not skipped)"})
 			out = append(out, Instance{Scenario: "c01_finite_end", Params: mustJSON(struct{}{}), Bound: 0, Note: "finite mode: streams end cleanly while acknowledgements are withheld, then save and exit"})
 			out = append(out, Instance{Scenario: "c01_concsave", Params: mustJSON(struct{}{}), Bound: 2, Shards: 8, Note: "the concurrent per-vBucket writes of one save under every schedule within the bound"})
 			out = append(out, Instance{Scenario: "pipe_tornfile", Params: mustJSON(struct{}{}), Bound: 0, Note: "crash inside os.WriteFile of the file backend: every prefix class of the JSON file"})
@@ -64,11 +66,14 @@ func init() {
 				{Scenario: "pipe", Params: mustJSON(PipeParams{Mode: "gen", Alphabet: docs, Depth: d, Ops: ops}), Bound: 0, Shards: 8},
 				{Scenario: "pipe", Params: mustJSON(PipeParams{Mode: "gen", Alphabet: skip, Depth: d + 1, Ops: ops, SkipUntil: true}), Bound: 0, Shards: 8},
 				{Scenario: "pipe", Params: mustJSON(PipeParams{Mode: "gen", Alphabet: []string{"M", "Mbefore", "Mat", "Ebefore"}, Depth: d, Ops: ops, SkipUntil: true, SkipFrac: true}), Bound: 0, Shards: 4, Note: "skipUntil half a second after a whole second: events of that second are older"},
+				{Scenario: "pipe", Params: mustJSON(PipeParams{Mode: "gen", Alphabet: []string{"M", "Mhighcas", "Dhighcas", "Mshort"}, Depth: d, Ops: ops}), Bound: 0, Shards: 4, Note: "CAS values with the top bit set; user keys that are proper prefixes of a reserved prefix"},
+				{Scenario: "pipe", Params: mustJSON(PipeParams{Mode: "gen", Alphabet: []string{"M", "Mhighcas", "Mbefore"}, Depth: d, Ops: ops, SkipUntil: true}), Bound: 0, Shards: 4, Note: "skipUntil with CAS values that have the top bit set (far in the future, never older)"},
 				{Scenario: "pipe", Params: mustJSON(PipeParams{Mode: "gen", Alphabet: coll, Depth: d + 1, Ops: ops, Colls: true}), Bound: 0, Shards: 8},
 				{Scenario: "pipe", Params: mustJSON(PipeParams{Mode: "gen", Alphabet: append(append([]string{}, coll...), "Minfix", "Dinfix", "Mres"), Depth: d, Ops: ops, Colls: false}), Bound: 0, Shards: 4},
 				{Scenario: "c08_rollback", Params: mustJSON(RollbackParams{}), Bound: 0, Shards: 4, Note: "the documented rollback filter: nothing at or below the position already reached, everything above it"},
 				{Scenario: "c03_conc", Params: mustJSON(ConcParams{}), Bound: 2, Shards: 8, Note: "three vBuckets on two nodes streaming concurrently, all schedules within the bound"},
 				{Scenario: "c03_conc", Params: mustJSON(ConcParams{Block: true}), Bound: 1, Shards: 4, Note: "consumer blocked inside a delivery of vb0 while the other node keeps delivering"},
+				{Scenario: "c03_twosessions", Params: mustJSON(struct{}{}), Bound: 0, Shards: 1, Note: "two complete Dcp sessions in one process with independent collection configurations (and a collection re-created with a new id in between): names and stream filter of each session"},
 				{Scenario: "c03_rebalance", Params: mustJSON(struct{}{}), Bound: 0, Shards: 4, Note: "completeness across a real Rebalance(): backlog arriving before it, while closed, or right after the vBucket re-opened while Open() still waits for another vBucket"},
 				{Scenario: "reopen_life", Params: mustJSON(LifeParams{Oracle: "delivery", Segs: 2}), Bound: 0, Shards: 8, Note: "chains of transient ends and re-opens (same history / fail-over without rollback / rollback), every acknowledgement pattern between them"},
 			}
@@ -91,8 +96,10 @@ func init() {
 				out = append(out, Instance{Scenario: "pipe", Params: mustJSON(PipeParams{Mode: "script", Layout: l, Depth: d, Ops: ops, CrashEnd: true}), Bound: 0, Shards: 4})
 			}
 			out = append(out, Instance{Scenario: "pipe_malformed", Params: mustJSON(struct{}{}), Bound: 0})
+			out = append(out, Instance{Scenario: "reopen_life", Params: mustJSON(LifeParams{Oracle: "tuple", Segs: 2, EarlySave: true}), Bound: 0, Shards: 8, Note: "the same with a save before the first re-open"})
 			out = append(out, Instance{Scenario: "reopen_life", Params: mustJSON(LifeParams{Oracle: "tuple", Segs: 2}), Bound: 0, Shards: 8, Note: "chains of transient ends and re-opens on changing history branches with late acknowledgements of earlier segments"})
 			out = append(out, Instance{Scenario: "c02_resume", Params: mustJSON(ResumeParams{Backend: "custom"}), Bound: 0, Shards: 2, Note: "start offsets (incl. auto-reset latest on vBuckets with a multi-entry fail-over log) name the history branch the stream is opened on"})
+			out = append(out, Instance{Scenario: "c08_rollback", Params: mustJSON(RollbackParams{}), Bound: 0, Shards: 8, Note: "after a rollback the offsets carry the vbUUID of the branch the stream runs on (multi-entry fail-over logs)"})
 			out = append(out, Instance{Scenario: "c06_reopen", Params: mustJSON(struct{}{}), Bound: 0, Note: "transient end, re-open answered with a rollback: the observer carries its old snapshot into the catch-up phase"})
 			return out
 		},
